@@ -159,9 +159,10 @@ class C01(Prop):
     def finding_key(self, case, v):
         big = max(exprs.max_abs_argument(case['tree'], float(xv), ('tanh',)) for xv in case['x'])
         tiny = min(exprs.min_abs_pow_base(case['tree'], float(xv)) for xv in case['x'])
+        huge = max(exprs.max_abs_pow_base(case['tree'], float(xv)) for xv in case['x'])
         inv = min(exprs.min_abs_argument(case['tree'], float(xv), ('arcsinh', 'arctanh', 'arctan', 'arcsin'))
                   for xv in case['x'])
-        return {'tanh_arg_over_300': bool(big > 300), 'pow_base_below_1e-15': bool(tiny < 1e-15), 'inverse_function_arg_below_1e-2': bool(inv < 1e-2),
+        return {'tanh_arg_over_300': bool(big > 300), 'pow_base_below_1e-15': bool(tiny < 1e-15), 'pow_base_above_1e150': bool(huge > 1e150), 'inverse_function_arg_below_1e-2': bool(inv < 1e-2),
                 'clause': v.clause, 'method': case['method'], 'n': case['n'],
                 'ops': sorted(exprs.ops(case['tree'])), 'complex_f': case.get('wrap') is not None,
                 'step_kind': case['step']['kind'], 'exception': v.details.get('exception'),
